@@ -188,3 +188,16 @@ Fixpoint dedup_from (seen : list (nat * nat)) (l : list (nat * nat)) : option (l
       end
   end.
 Definition dedup (l : list (nat * nat)) : option (list (nat * nat)) := dedup_from [] l.
+
+(** * The rename chain of an enum constant (C11): SchemaNameToTypeName, SanitizeGoIdentity, SchemaNameToTypeName
+      again, on ASCII names (the classes and upper-case forms of ASCII are written out) *)
+Local Open Scope N_scope.
+Definition ascii_rune (c : N) : rune :=
+  if (65 <=? c) && (c <=? 90) then {| code := c; cl := Upper; up := (c, Upper) |}
+  else if (97 <=? c) && (c <=? 122) then {| code := c; cl := Lower; up := (c - 32, Upper) |}
+  else if (48 <=? c) && (c <=? 57) then {| code := c; cl := Digit; up := (c, Digit) |}
+  else {| code := c; cl := Other; up := (c, Other) |}.
+Definition ascii_runes (s : string) : list rune := map ascii_rune (codes_of s).
+Definition enum_name_chain (s : string) : list orune :=
+  type_name camel (map (fun r => ascii_rune (fst r)) (sanitize (type_name camel (ascii_runes s)))).
+Local Close Scope N_scope.
